@@ -12,13 +12,14 @@ pub mod c09;
 pub mod c10;
 pub mod c11;
 pub mod c12;
+pub mod c17;
 pub mod c18;
 pub mod pcli;
 
 use crate::prop::PropDef;
 
 pub fn all() -> Vec<&'static PropDef> {
-	vec![&c02::DEF, &c03::DEF, &c04::DEF, &c05::DEF, &c07::DEF, &c08::DEF, &c09::DEF, &c10::DEF, &c11::DEF, &c12::DEF, &pcli::C13, &pcli::C14, &pcli::C15, &pcli::C16, &c18::DEF]
+	vec![&c02::DEF, &c03::DEF, &c04::DEF, &c05::DEF, &c07::DEF, &c08::DEF, &c09::DEF, &c10::DEF, &c11::DEF, &c12::DEF, &pcli::C13, &pcli::C14, &pcli::C15, &pcli::C16, &c17::DEF, &c18::DEF]
 }
 
 pub fn find(id: &str) -> Option<&'static PropDef> {
